@@ -4393,6 +4393,23 @@ CK_RV SoftHSM::AsymSignInit(CK_SESSION_HANDLE hSession, CK_MECHANISM_PTR pMechan
 			return CKR_MECHANISM_INVALID;
 	}
 
+	// Check that the key class and the key type fit the mechanism
+	if (key->getUnsignedLongValue(CKA_CLASS, CKO_VENDOR_DEFINED) != CKO_PRIVATE_KEY)
+		return CKR_KEY_TYPE_INCONSISTENT;
+	CK_KEY_TYPE keyType = key->getUnsignedLongValue(CKA_KEY_TYPE, CKK_VENDOR_DEFINED);
+	if (isRSA && keyType != CKK_RSA)
+		return CKR_KEY_TYPE_INCONSISTENT;
+	if (isDSA && keyType != CKK_DSA)
+		return CKR_KEY_TYPE_INCONSISTENT;
+#ifdef WITH_ECC
+	if (isECDSA && keyType != CKK_EC)
+		return CKR_KEY_TYPE_INCONSISTENT;
+#endif
+#ifdef WITH_EDDSA
+	if (isEDDSA && keyType != CKK_EC_EDWARDS)
+		return CKR_KEY_TYPE_INCONSISTENT;
+#endif
+
 	AsymmetricAlgorithm* asymCrypto = NULL;
 	PrivateKey* privateKey = NULL;
 	if (isRSA)
@@ -5368,6 +5385,23 @@ CK_RV SoftHSM::AsymVerifyInit(CK_SESSION_HANDLE hSession, CK_MECHANISM_PTR pMech
 		default:
 			return CKR_MECHANISM_INVALID;
 	}
+
+	// Check that the key class and the key type fit the mechanism
+	if (key->getUnsignedLongValue(CKA_CLASS, CKO_VENDOR_DEFINED) != CKO_PUBLIC_KEY)
+		return CKR_KEY_TYPE_INCONSISTENT;
+	CK_KEY_TYPE keyType = key->getUnsignedLongValue(CKA_KEY_TYPE, CKK_VENDOR_DEFINED);
+	if (isRSA && keyType != CKK_RSA)
+		return CKR_KEY_TYPE_INCONSISTENT;
+	if (isDSA && keyType != CKK_DSA)
+		return CKR_KEY_TYPE_INCONSISTENT;
+#ifdef WITH_ECC
+	if (isECDSA && keyType != CKK_EC)
+		return CKR_KEY_TYPE_INCONSISTENT;
+#endif
+#ifdef WITH_EDDSA
+	if (isEDDSA && keyType != CKK_EC_EDWARDS)
+		return CKR_KEY_TYPE_INCONSISTENT;
+#endif
 
 	AsymmetricAlgorithm* asymCrypto = NULL;
 	PublicKey* publicKey = NULL;
